@@ -7,8 +7,8 @@ Import ListNotations.
 Lemma ctx_string_equiv : forall st c, ctx_visible st c = true ->
   ctx_string no_strip (strip_ctx st c) = ctx_string st c.
 Proof.
-  intros st c H. unfold ctx_string, strip_ctx. cbn [c_pn c_self].
-  apply rs_string_value. unfold ctx_visible, visible in H. destruct (stripped st (c_pn c) (c_self c)); [discriminate|reflexivity].
+  intros st c H. unfold ctx_string, strip_ctx. cbn [c_pk c_self].
+  apply rs_string_value. unfold ctx_visible, visible in H. destruct (stripped st (c_pk c) (c_self c)); [discriminate|reflexivity].
 Qed.
 
 Lemma filter_map_visible : forall st (f g : ctx -> bool) (l : list ctx),
@@ -24,11 +24,11 @@ Qed.
 Lemma root_visible : forall st n a ks, ctx_visible st (root_ctx (Elem n a ks)) = true.
 Proof. reflexivity. Qed.
 
-Lemma strip_root : forall st d, strip_ctx st (root_ctx d) = root_ctx (remove_stripped st d).
+Lemma strip_root : forall st d, strip_ctx st (root_ctx d) = root_ctx (remove_stripped st root_key d).
 Proof. reflexivity. Qed.
 
 Lemma all_matching_equiv : forall st m n a ks,
-  map (strip_ctx st) (all_matching st m (Elem n a ks)) = all_matching no_strip m (remove_stripped st (Elem n a ks)).
+  map (strip_ctx st) (all_matching st m (Elem n a ks)) = all_matching no_strip m (remove_stripped st root_key (Elem n a ks)).
 Proof.
   intros. unfold all_matching. rewrite path_equiv by apply root_visible. rewrite strip_root. reflexivity.
 Qed.
@@ -38,7 +38,7 @@ Lemma all_matching_visible : forall st m n a ks,
 Proof. intros. unfold all_matching. apply path_visible. apply root_visible. Qed.
 
 Theorem key_dot_equiv : forall st m v n a ks,
-  map (strip_ctx st) (key_dot st m v (Elem n a ks)) = key_dot no_strip m v (remove_stripped st (Elem n a ks)).
+  map (strip_ctx st) (key_dot st m v (Elem n a ks)) = key_dot no_strip m v (remove_stripped st root_key (Elem n a ks)).
 Proof.
   intros. unfold key_dot. rewrite <- all_matching_equiv.
   apply filter_map_visible; [apply all_matching_visible|].
@@ -55,7 +55,7 @@ Proof.
 Qed.
 
 Theorem key_text_equiv : forall st m v n a ks,
-  map (strip_ctx st) (key_text st m v (Elem n a ks)) = key_text no_strip m v (remove_stripped st (Elem n a ks)).
+  map (strip_ctx st) (key_text st m v (Elem n a ks)) = key_text no_strip m v (remove_stripped st root_key (Elem n a ks)).
 Proof.
   intros. unfold key_text. rewrite <- all_matching_equiv.
   apply filter_map_visible; [apply all_matching_visible|].
